@@ -3,7 +3,7 @@
 //! Written from the format description in DESIGN Appendix A and the property statements.
 
 use crate::sjis;
-use std::collections::BTreeMap;
+use std::collections::{BTreeMap, BTreeSet};
 
 #[derive(Clone, Copy, PartialEq, Eq, Hash, Debug, PartialOrd, Ord)]
 pub enum End {
@@ -108,6 +108,80 @@ pub fn cstring_pool(c: &Content) -> Pool {
         bytes.push(0);
     }
     Pool { bytes, offset_of }
+}
+
+/// Differences between a parsed image (data-region bytes, string cells, pointer cells) and `c` with
+/// its pending c-strings materialised — with the ORDER of the c-string pool left open: the format
+/// and the statements fix what each c-string cell must point at (its own NUL-terminated string
+/// in the pool behind the data), not where in the pool each string sits.
+pub fn diff_materialised(bytes: &[u8], strings: &BTreeMap<usize, String>, pointers: &BTreeMap<usize, usize>, c: &Content) -> Vec<String> {
+    let mut d = Vec::new();
+    let canon = materialise_cstrings(c);
+    if bytes.len() != canon.size() {
+        d.push(format!("re-parsed size {} != {} (data {} + padded c-string pool {})", bytes.len(), canon.size(), c.size(), canon.size() - c.size()));
+        return d;
+    }
+    let base = c.data.len();
+    let mut covered = vec![false; base];
+    for a in c.strings.keys().chain(c.pointers.keys()).chain(c.cstrings.keys()) {
+        for i in *a..(*a + 4).min(base) {
+            covered[i] = true;
+        }
+    }
+    for i in 0..base {
+        if !covered[i] && bytes[i] != c.data[i] {
+            d.push(format!("raw byte {} is {:?}, expected {:?}", i, bytes[i], c.data[i]));
+            break;
+        }
+    }
+    if *strings != c.strings {
+        d.push(format!("strings {:?} != expected {:?}", strings, c.strings));
+    }
+    // ordinary pointers: exact; c-string cells: a pointer to the cell's own string in the pool
+    let mut want_cells: BTreeSet<usize> = c.pointers.keys().cloned().collect();
+    want_cells.extend(c.cstrings.keys().cloned());
+    let got_cells: BTreeSet<usize> = pointers.keys().cloned().collect();
+    if got_cells != want_cells {
+        d.push(format!("pointers {:?} != expected cells {:?}", pointers, want_cells));
+        return d;
+    }
+    for (a, t) in &c.pointers {
+        if pointers.get(a) != Some(t) {
+            d.push(format!("pointers {:?} != expected {:?} (+ c-string cells)", pointers, c.pointers));
+            break;
+        }
+    }
+    for (a, s) in &c.cstrings {
+        let t = pointers[a];
+        let want = sjis::encode(s).unwrap_or_default();
+        let ok = t >= base && t + want.len() < bytes.len() && bytes[t..t + want.len()] == want[..] && bytes[t + want.len()] == 0 && (t == base || bytes[t - 1] == 0);
+        if !ok {
+            d.push(format!("c-string pointers: cell {} points at {} where the pool does not hold {:?} (pointers {:?})", a, t, s, pointers));
+            break;
+        }
+    }
+    // the pool holds every distinct c-string exactly once, NUL-terminated, then zero padding
+    let mut want_entries: Vec<Vec<u8>> = Vec::new();
+    for s in c.cstrings.values() {
+        let b = sjis::encode(s).unwrap_or_default();
+        if !want_entries.contains(&b) {
+            want_entries.push(b);
+        }
+    }
+    want_entries.sort();
+    let used: usize = want_entries.iter().map(|e| e.len() + 1).sum();
+    let mut got_entries: Vec<Vec<u8>> = Vec::new();
+    let mut i = base;
+    while i < base + used && i < bytes.len() {
+        let end = bytes[i..].iter().position(|b| *b == 0).map(|p| i + p).unwrap_or(bytes.len());
+        got_entries.push(bytes[i..end].to_vec());
+        i = end + 1;
+    }
+    got_entries.sort();
+    if got_entries != want_entries || bytes[(base + used).min(bytes.len())..].iter().any(|b| *b != 0) {
+        d.push(format!("c-string pool {:02x?} does not hold exactly the distinct c-strings (any order) followed by zero padding", &bytes[base..]));
+    }
+    d
 }
 
 /// Content with the pending c-strings materialised the way the format stores them:
